@@ -10,7 +10,10 @@ EXPLANATION = (
     "on every path with a slice whose data roots include BOTH the batch parameter and the failure position taken from that same Err payload, and "
     "on the Ok edge with the batch parameter itself; in maintain, delete_components is called with the merge() result and can be skipped only "
     "under a condition computed from that same result; and inside merge every index whose generation slot dies is pushed (as a handle) into "
-    "the returned vector on every path of its iteration. R3 (the walk): delete_components loops over MetaTable::iter_mut and every iteration "
+    "the returned vector on every path of its iteration; and EVERY other body that purges (a further batch / lenient / retain-style "
+    "deletion entry point) must justify the purged slice by the allocator: it derives from the result of an allocator method that kills (role: an "
+    "impl Allocator body with a death site), or the site lies on the Ok arm of such a call and is handed that very batch, or on its Err arm and "
+    "depends on batch and failure position (only private helpers count as wrappers). R3 (the walk): delete_components loops over MetaTable::iter_mut and every iteration "
     "calls AnyStorage::drop(item, the parameter); <MaskedStorage<T> as AnyStorage>::drop calls MaskedStorage::drop(self, id of each element). "
     "R4 (who may purge): the crate-local callers of delete_components are a subset of {delete_entities, maintain}, of AnyStorage::drop a subset of "
     "{delete_components}, of MaskedStorage::drop(id) a subset of {the AnyStorage impl} plus checked accessors (the id is the index of a handle whose own aliveness test guards the call - a destroy-in-place twin of Storage::remove)."
